@@ -187,6 +187,23 @@ def generate(rng, tier):
         streams.append("targeted")
         cases.append({"kind": "fields", "a": ["f", a], "b": ["f", b]})
         streams.append("targeted")
+    # composites that differ in the version only: every pair of neighbours around the byte boundaries of major and minor
+    # (a version packed as major * 255 + minor identifies m.255 with (m+1).0)
+    body = [["a", u8c], ["b", {"k": "var", "e": dict(u8c), "n": 3}]]
+    vers = [[0, 1], [0, 254], [0, 255], [1, 0], [1, 1], [1, 254], [1, 255], [2, 0], [2, 1], [254, 255], [255, 0], [255, 254], [255, 255], [16, 0], [0, 16]]
+    for kind in ("struct", "union"):
+        for va in vers:
+            for vb in vers:
+                if va < vb and (abs(va[0] - vb[0]) <= 1 or va[::-1] == vb):
+                    a = {"k": kind, "name": "ns.Ver", "ver": va, "fs": copy.deepcopy(body)}
+                    b = {"k": kind, "name": "ns.Ver", "ver": vb, "fs": copy.deepcopy(body)}
+                    cases.append({"kind": "types", "a": a, "b": b})
+                    streams.append("targeted")
+                    if kind == "struct" and va[1] in (255, 0):
+                        cases.append({"kind": "types", "a": {"k": "delim", "i": a, "ext": 256}, "b": {"k": "delim", "i": b, "ext": 256}})
+                        streams.append("targeted")
+                        cases.append({"kind": "fields", "a": ["f", {"k": "fix", "e": a, "n": 2}], "b": ["f", {"k": "fix", "e": b, "n": 2}]})
+                        streams.append("targeted")
     for x in STRINGS:
         for y in STRINGS:
             if x < y and (x.encode() != y.encode()):
